@@ -376,10 +376,7 @@ pub fn check_pure(case: &Pure) -> Result<CaseInfo, Fail> {
                 }
             }
             // 3. text -> value -> text: the import direction, from a hand-built JSON text
-            let mut jt = frame_json_for_import(&spec);
-            if *sparse {
-                jt = jt.replace("\"hash\":null,", "").replace(",\"ttl\":null", "");
-            }
+            let jt = frame_json_for_import_opt(&spec, *sparse);
             match serde_json::from_str::<Frame>(&jt) {
                 Ok(parsed) => {
                     if parsed != frame {
